@@ -5,8 +5,11 @@
    schema.check_compliance(check_for_warnings=warn) for the raw schema S (what the XML says) in the
    environment E (known released versions, library id ranges, previous-version schemas, plurals);
    [load E S = Ok L] is the loaded schema and [check_loaded fx E warn L] the check proper.
-   [fx] selects the repairs: [fixed_all] is the code as it now is (fix: commits for C14-F1 and C14-F2),
-   [fixed_none] the code before them.  The seeded-fault theorems quantify over EVERY loaded schema L,
+   [fx] selects the repairs: [fixed_all] is the code as it is in /repo, which contains the fix: commits 55e2b09
+   (C14-F1: validators only run on attributes declared for the section), 5844fee (C14-F2: the entry's own
+   inLibrary value in the hedId and deprecatedFrom rules) and 4796114 (C14-F3: value-less allowedCharacter in the
+   name check; outside the model); [fixed_none] is the behaviour BEFORE 55e2b09 / 5844fee, kept only as the
+   record of the repaired defects (last section).  The seeded-fault theorems quantify over EVERY loaded schema L,
    every section and every entry e the check visits: "Seed k pos S S'" of the statement is the special
    case L = load S', e = the entry at pos. *)
 From Coq Require Import List NArith ZArith String.
@@ -76,7 +79,10 @@ Print Assumptions C14_rule_in_library.
 
 (* The rule consults the HEADER of the schema being checked and nothing else: the environment (which libraries
    and versions are released, what the cache holds), the id-range data and the repairs play no role -- a foreign
-   name is foreign even when it is the name of another released library. *)
+   name is foreign even when it is the name of another released library.
+   NOTE: this holds BY CONSTRUCTION of the model (run_validator passes neither fx, E nor I to in_library_check;
+   the proof is eq_refl).  It documents the modelling decision; that the implementation behaves so is what the
+   correspondence run checks (seeds with the names of other released libraries). *)
 Theorem C14_rule_in_library_header_only : forall fx1 fx2 E1 E2 I1 I2 L e a,
   run_validator fx1 E1 I1 L V_in_library_check e a = run_validator fx2 E2 I2 L V_in_library_check e a.
 Proof. exact (fun _ _ _ _ _ _ _ _ _ => eq_refl). Qed.
@@ -239,7 +245,7 @@ Print Assumptions C14_default_units_rule_applies.
 
 (* ================= clause 2: a seeded fault is reported with the specification's code =================
 
-   THE CODE AS IT NOW IS (fixed_all).  The statement
+   THE CODE AS IT IS IN /repo (fixed_all; fix: commits 55e2b09, 5844fee).  The statement
      seeded_fault_reported : Compliant S -> Seed k pos S S' -> In (spec_code k) (codes (check S'))
    is proved without any "the check does not raise" hypothesis.  What is left of it is named by cause:
 
@@ -251,10 +257,80 @@ Print Assumptions C14_default_units_rule_applies.
                        item_exists / allowedCharacter / unit_exists / hedId, readable versions for
                        deprecatedFrom).
 
-   Since the repair, undeclared attributes are not looked at by [well_valued] at all (skip_attribute),
+   Since fix: commit 55e2b09, undeclared attributes are not looked at by [well_valued] at all (skip_attribute),
    which is exactly what C14-F1 was about: seeding an undeclared attribute cannot make the check raise.
    [skip_attribute fixed_all e a = false] in the other theorems says "a is declared for e's section"
-   (otherwise the fault present at e IS the undeclared attribute, theorem C14_seeded_undeclared_attribute). *)
+   (otherwise the fault present at e IS the undeclared attribute, theorem C14_seeded_undeclared_attribute).
+
+   HOW THE PREMISE [checkable] IS ESTABLISHED (it is a universally quantified Prop, so this matters):
+     * it is decidable: C14_checkable_decided gives a boolean pass ([evaluate]) that is sound for it;
+     * it HOLDS of all nine eligible bundled schemas as loaded by the model: C14_bundled_schemas_checkable
+       (kernel evaluation, same pass that establishes clause 1);
+     * it is PRESERVED by a one-attribute seed: C14_seed_preserves_checkable -- L' is L with one entry e of one
+       section replaced by e' that differs from e in the single attribute a (header and attribute definitions
+       untouched); then checkable E L -> checkable E L', provided a is undeclared for the section OR meets its own
+       rules (string value, right entry class), and the entry's own inLibrary value is unchanged (so: not for the
+       inLibrary seed itself on an entry that also carries deprecatedFrom/hedId rules -- there the premise must be
+       re-established, which the boolean pass does);
+     * three seeded bundled schemas are taken THROUGH the theorems, every premise established by kernel
+       evaluation: C14_seeded_examples_through_theorems (foreign inLibrary, undeclared defaultUnits = the old
+       C14-F1 witness, out-of-range hedId on a nested library tag = the old C14-F2 witness).
+   NOT PROVED: that the record [load E S'] of the seeded XML stands in the relation [one_attribute_seed] to
+   [load E S] (a statement about the loader; the loader is tied to the implementation by the correspondence run
+   and, for these examples, by evaluation).  The duplicate-node seed adds an entry rather than an attribute and
+   is not covered by the preservation lemma.
+
+   SEVERITY.  Conclusions are stated with warnings ON.  By C14_attribute_findings_are_warnings every finding of an
+   attribute rule is a warning, so nine of the fault kinds are reported with warnings on only -- which is what the
+   statement's last clause says; the two error kinds (duplicate node, undeclared attribute) are concluded on
+   [filter is_error] and therefore also with warnings off (C14_warnings_off_only_errors). *)
+
+Theorem C14_checkable_decided : forall E S errs,
+  evaluate E S = Ok (errs, true) ->
+  errors_of (check_compliance fixed_all E true S) = Ok errs
+  /\ exists L, load E S = Ok L /\ checkable E L.
+Proof. exact evaluate_sound. Qed.
+Print Assumptions C14_checkable_decided.
+
+Theorem C14_bundled_schemas_checkable :
+  (exists L, load env_8_0_0 Gen.Schema_8_0_0_c14.schema = Ok L /\ checkable env_8_0_0 L) /\
+  (exists L, load env_8_1_0 Gen.Schema_8_1_0_c14.schema = Ok L /\ checkable env_8_1_0 L) /\
+  (exists L, load env_8_2_0 Gen.Schema_8_2_0_c14.schema = Ok L /\ checkable env_8_2_0 L) /\
+  (exists L, load env_8_3_0 Gen.Schema_8_3_0_c14.schema = Ok L /\ checkable env_8_3_0 L) /\
+  (exists L, load env_score_1_1_0 Gen.Schema_score_1_1_0_c14.schema = Ok L /\ checkable env_score_1_1_0 L) /\
+  (exists L, load env_score_2_0_0 Gen.Schema_score_2_0_0_c14.schema = Ok L /\ checkable env_score_2_0_0 L) /\
+  (exists L, load env_testlib_2_0_0 Gen.Schema_testlib_2_0_0_c14.schema = Ok L /\ checkable env_testlib_2_0_0 L) /\
+  (exists L, load env_testlib_2_1_0 Gen.Schema_testlib_2_1_0_c14.schema = Ok L /\ checkable env_testlib_2_1_0 L) /\
+  (exists L, load env_testlib_3_0_0 Gen.Schema_testlib_3_0_0_c14.schema = Ok L /\ checkable env_testlib_3_0_0 L).
+Proof.
+  exact (conj checkable_8_0_0 (conj checkable_8_1_0 (conj checkable_8_2_0 (conj checkable_8_3_0
+        (conj checkable_score_1_1_0 (conj checkable_score_2_0_0 (conj checkable_testlib_2_0_0
+        (conj checkable_testlib_2_1_0 checkable_testlib_3_0_0)))))))).
+Qed.
+Print Assumptions C14_bundled_schemas_checkable.
+
+Theorem C14_seed_preserves_checkable : forall E L L' sec e e' a,
+  checkable E L -> one_attribute_seed L L' sec e e' a ->
+  dict_get HedKey_InLibrary (le_attrs e') = dict_get HedKey_InLibrary (le_attrs e) ->
+  (skip_attribute fixed_all e' a = true
+   \/ forall I v, id_validator_init E L = Ok I -> In v (get_validators L a) -> applicable fixed_all E I L' v e' a) ->
+  checkable E L'.
+Proof. exact seed_preserves_checkable. Qed.
+Print Assumptions C14_seed_preserves_checkable.
+
+(* three seeded bundled schemas, through C14_seeded_in_library / C14_seeded_undeclared_attribute /
+   C14_seeded_hed_id_range: the conclusion is obtained FROM the theorem, its premises from kernel evaluation *)
+Theorem C14_seeded_examples_through_theorems :
+  (exists L issues, load env_830 seeded_in_library_830 = Ok L /\ check_loaded fixed_all env_830 true L = Ok issues
+                    /\ In (spec_code F_in_library) (codes issues))
+  /\ (exists L issues, load env_830 seeded_default_units_on_tag_830 = Ok L
+                       /\ check_loaded fixed_all env_830 true L = Ok issues
+                       /\ In (spec_code F_undeclared_attribute) (codes (filter is_error issues)))
+  /\ (exists L issues, load env_score200 seeded_hed_id_score_200 = Ok L
+                       /\ check_loaded fixed_all env_score200 true L = Ok issues
+                       /\ In (spec_code F_hed_id) (codes issues)).
+Proof. exact (conj ex_in_library_through_theorem (conj ex_undeclared_through_theorem ex_hed_id_through_theorem)). Qed.
+Print Assumptions C14_seeded_examples_through_theorems.
 
 Theorem C14_check_does_not_raise : forall fx E L I pre,
   id_validator_init E L = Ok I -> check_if_prerelease_version E true L = Ok pre ->
@@ -281,6 +357,40 @@ Theorem C14_seeded_undeclared_attribute : forall E L sec e a,
                  /\ In (spec_code F_undeclared_attribute) (codes (filter is_error issues)).
 Proof. exact seeded_undeclared_full. Qed.
 Print Assumptions C14_seeded_undeclared_attribute.
+
+(* ONE theorem for three fault kinds (unknown suggested/related tag, unit class, value class), selected by tsec.
+   That the attribute a actually carries the existence rule is the separate premise
+   [In (V_item_exists_check tsec) (get_validators L a)]: in general it follows from C14_item_rule_applies_old
+   (pre-8.3 table) or C14_item_rule_applies_new (8.3: the attribute's DEFINITION must carry tagRange /
+   unitClassRange / valueClassRange -- a schema whose definition lacks the range property does not check the
+   reference at all); for the nine bundled schemas it is established by C14_bundled_reference_rules. *)
+Theorem C14_bundled_reference_rules :
+  loaded_has_reference_rules env_8_0_0 Gen.Schema_8_0_0_c14.schema = true /\
+  loaded_has_reference_rules env_8_1_0 Gen.Schema_8_1_0_c14.schema = true /\
+  loaded_has_reference_rules env_8_2_0 Gen.Schema_8_2_0_c14.schema = true /\
+  loaded_has_reference_rules env_8_3_0 Gen.Schema_8_3_0_c14.schema = true /\
+  loaded_has_reference_rules env_score_1_1_0 Gen.Schema_score_1_1_0_c14.schema = true /\
+  loaded_has_reference_rules env_score_2_0_0 Gen.Schema_score_2_0_0_c14.schema = true /\
+  loaded_has_reference_rules env_testlib_2_0_0 Gen.Schema_testlib_2_0_0_c14.schema = true /\
+  loaded_has_reference_rules env_testlib_2_1_0 Gen.Schema_testlib_2_1_0_c14.schema = true /\
+  loaded_has_reference_rules env_testlib_3_0_0 Gen.Schema_testlib_3_0_0_c14.schema = true.
+Proof.
+  exact (conj reference_rules_8_0_0 (conj reference_rules_8_1_0 (conj reference_rules_8_2_0 (conj reference_rules_8_3_0
+        (conj reference_rules_score_1_1_0 (conj reference_rules_score_2_0_0 (conj reference_rules_testlib_2_0_0
+        (conj reference_rules_testlib_2_1_0 reference_rules_testlib_3_0_0)))))))).
+Qed.
+Print Assumptions C14_bundled_reference_rules.
+
+Theorem C14_reference_rules_meaning : forall E S,
+  loaded_has_reference_rules E S = true ->
+  exists L, load E S = Ok L
+  /\ In (V_item_exists_check SecTags) (get_validators L HedKey_SuggestedTag)
+  /\ In (V_item_exists_check SecTags) (get_validators L HedKey_RelatedTag)
+  /\ In (V_item_exists_check SecUnitClasses) (get_validators L HedKey_UnitClass)
+  /\ In (V_item_exists_check SecValueClasses) (get_validators L HedKey_ValueClass)
+  /\ In V_unit_exists (get_validators L HedKey_DefaultUnits).
+Proof. exact loaded_has_reference_rules_sound. Qed.
+Print Assumptions C14_reference_rules_meaning.
 
 Theorem C14_seeded_unknown_item : forall E L sec e a s tsec item,
   checkable E L -> In e (section_values L sec) ->
@@ -444,7 +554,7 @@ Proof. exact seeded_hed_id_changed_full. Qed.
 Print Assumptions C14_seeded_hed_id_changed.
 
 (* ================= clause 1: every eligible bundled schema passes with no error =================
-   kernel evaluation (VM) of the model of the code as it now is on the translated XML data, in the
+   kernel evaluation (VM) of the model of the code as it is in /repo (fixed_all) on the translated XML data, in the
    environment of the package; [no_error] = no error-severity issue with warnings on AND an empty
    result with warnings off.  One theorem, so that the data is traversed once. *)
 Theorem C14_bundled_schemas_compliant :
@@ -464,12 +574,12 @@ Proof.
 Qed.
 Print Assumptions C14_bundled_schemas_compliant.
 
-(* ================= non-vacuity and the old witnesses, on the code as it now is ================= *)
+(* ================= non-vacuity and the old witnesses, on the code as it is in /repo (fixed_all) ================= *)
 Example C14_nonvacuous_seeded_8_3_0 :
   res_codes (check_compliance fixed_all env_830 true seeded_in_library_830) = Ok [spec_code F_in_library]
   /\ check_compliance fixed_all env_830 false seeded_in_library_830 = Ok []
   /\ res_codes (check_compliance fixed_all env_830 false seeded_duplicate_830) = Ok [spec_code F_duplicate_node]
-  (* the witness of C14-F1: now reported, as an error, in both modes *)
+  (* the witness of C14-F1 (repaired by 55e2b09): reported, as an error, in both modes *)
   /\ res_codes (check_compliance fixed_all env_830 true seeded_default_units_on_tag_830)
      = Ok [spec_code F_undeclared_attribute]
   /\ res_codes (check_compliance fixed_all env_830 false seeded_default_units_on_tag_830)
@@ -480,21 +590,26 @@ Proof.
 Qed.
 Print Assumptions C14_nonvacuous_seeded_8_3_0.
 
-(* the witness of C14-F2: the out-of-range hedId of a nested library tag is now reported *)
+(* the witness of C14-F2 (repaired by 5844fee): the out-of-range hedId of a nested library tag is reported *)
 Example C14_nested_library_hed_id_reported :
   res_codes (check_compliance fixed_all env_score200 true seeded_hed_id_score_200) = Ok [spec_code F_hed_id].
 Proof. exact ex_hed_id_out_of_range_reported. Qed.
 Print Assumptions C14_nested_library_hed_id_reported.
 
-(* ================= THE RECORD OF THE REPAIRED DEFECTS (fixed_none = the code before the fix: commits) =========
-   For the unrepaired code the full statement was false; both witnesses replay on an unpatched tree
-   (VERIF_C14_FIXED=0).  For it only the `_partial` form held: for any fx, whenever the check does not
-   raise, the fault is reported (C14_seeded_fault_partial_* below). *)
+(* ================= THE RECORD OF THE REPAIRED DEFECTS =================
+   [fixed_none] = the behaviour BEFORE fix: commits 55e2b09 (C14-F1) and 5844fee (C14-F2).  These theorems are
+   NOT about the implementation in /repo: there the property holds in the form proved above.  They record that
+   for the code before those commits the full statement was false; both witnesses replay on a tree with the
+   commits reverted (VERIF_C14_FIXED=0).  For that code only the `_partial` form held: for any fx, whenever the
+   check does not raise, the fault is reported (C14_seeded_fault_partial_* below). *)
+(* before 55e2b09: *)
 Theorem C14_seeded_fault_reported_refuted_raises :
   has_tag s830 (s2str "Event") = true
   /\ check_compliance fixed_none env_830 true seeded_default_units_on_tag_830 = Exn AttributeError.
 Proof. exact ex_undeclared_attribute_raised. Qed.
 Print Assumptions C14_seeded_fault_reported_refuted_raises.
+
+(* before 5844fee: *)
 
 Theorem C14_seeded_fault_reported_refuted_hed_id :
   has_tag Gen.Schema_score_2_0_0_c14.schema n_rpp = true
